@@ -28,7 +28,7 @@ func init() {
 				"adjustments on the hit path.",
 			NotCovered: "the rounding amount of the served TTL, LRU eviction, that the cache library honours the expiry (trusted).",
 			Rules: map[string]string{"C04-R1": "served TTL aged on every path", "C04-R2": "cache key completeness", "C04-R3": "cacheability and store tables",
-				"C04-R4": "lowest-TTL helper table", "C04-R5": "hit-path coverage and store ordering"},
+				"C04-R4": "lowest-TTL helper table", "C04-R5": "hit-path coverage and store ordering", "C04-R6": "cached items are private deep copies"},
 		}})
 }
 
@@ -114,106 +114,12 @@ func runC04(c *an.Ctx) {
 	}
 
 	// ---- R2 keys
-	keyDeps := func(fnKey string, sources map[string]func(in ssa.Instruction) ssa.Value) {
-		fn := c.Fn(fnKey)
-		if fn == nil {
-			c.Und("C04-R2", fnKey, token.NoPos, "anchor not found")
-			return
-		}
-		c.Analysed(fnKey)
-		for name, match := range sources {
-			var srcs []ssa.Value
-			an.Instrs(fn, func(in ssa.Instruction) {
-				if v := match(in); v != nil {
-					srcs = append(srcs, v)
-				}
-			})
-			key := fnKey + " depends on " + name
-			if len(srcs) == 0 {
-				c.Bad("C04-R2", key, fn.Pos(), "the cache key never reads %s: entries that differ only in it collide", name)
-				continue
-			}
-			reaches := false
-			for _, s := range srcs {
-				t := forwardTaint(fn, s)
-				for _, r := range an.Returns(fn) {
-					for _, res := range r.Results {
-						if t[res] {
-							reaches = true
-						}
-					}
-				}
-			}
-			c.Check(reaches, "C04-R2", key, fn.Pos(), "flows into the key", "is read but does not flow into the key: entries that differ only in "+name+" collide")
-		}
-		if bad := keyPackingProblems(c, fn); len(bad) > 0 {
-			c.Bad("C04-R2", fnKey+" packing", fn.Pos(), "key inputs overlap: %s", strings.Join(bad, "; "))
-		} else {
-			c.Ok("C04-R2", fnKey+" packing", fn.Pos(), "inputs are written to disjoint ranges of sufficient width")
-		}
-	}
-	fieldLoad := func(typ, field string) func(in ssa.Instruction) ssa.Value {
-		return func(in ssa.Instruction) ssa.Value {
-			switch x := in.(type) {
-			case *ssa.FieldAddr:
-				if t, f, _, ok := an.FieldOf(x); ok && t == typ && f == field {
-					return x
-				}
-			case *ssa.Field:
-				if t, f, _, ok := an.FieldOf(x); ok && t == typ && f == field {
-					return x
-				}
-			}
-			return nil
-		}
-	}
-	callTo := func(name string) func(in ssa.Instruction) ssa.Value {
-		return func(in ssa.Instruction) ssa.Value {
-			if call, ok := in.(*ssa.Call); ok && an.Short(an.CalleeName(call)) == name {
-				return call
-			}
-			return nil
-		}
-	}
-	keyDeps("dnsserver/cache.toCacheKey", map[string]func(ssa.Instruction) ssa.Value{
+	keyDeps(c, "C04-R2", "dnsserver/cache.toCacheKey", map[string]func(ssa.Instruction) ssa.Value{
 		"the DO bit":    callTo("(*github.com/miekg/dns.OPT).Do"),
 		"question type": fieldLoad("github.com/miekg/dns.Question", "Qtype"), "question class": fieldLoad("github.com/miekg/dns.Question", "Qclass"),
 		"question name": fieldLoad("github.com/miekg/dns.Question", "Name"),
 	})
-	keyDeps("ecscache.(*Middleware).toCacheKey", map[string]func(ssa.Instruction) ssa.Value{
-		"host": fieldLoad("ecscache.cacheRequest", "host"), "question type": fieldLoad("ecscache.cacheRequest", "qType"),
-		"question class": fieldLoad("ecscache.cacheRequest", "qClass"), "the DO bit": fieldLoad("ecscache.cacheRequest", "reqDO"),
-		"the subnet": fieldLoad("ecscache.cacheRequest", "subnet"), "the ECS opt-out flag": fieldLoad("ecscache.cacheRequest", "isECSDeclined"),
-		"subnet length": callTo("(net/netip.Prefix).Bits"), "address family": callTo("(net/netip.Addr).Is6"),
-	})
-	// in the ECS key the subnet bytes are written exactly on the ECS-dependent branch and the opt-out flag on the other
-	if fn := c.Fn("ecscache.(*Middleware).toCacheKey"); fn != nil {
-		var asSlice, declined ssa.Instruction
-		an.Instrs(fn, func(in ssa.Instruction) {
-			if call, ok := in.(*ssa.Call); ok && an.CalleeName(call) == "(net/netip.Addr).AsSlice" {
-				asSlice = call
-			}
-			if fa, ok := in.(*ssa.FieldAddr); ok {
-				if t, f, _, ok := an.FieldOf(fa); ok && t == "ecscache.cacheRequest" && f == "isECSDeclined" {
-					declined = fa
-				}
-			}
-		})
-		onParam := func(in ssa.Instruction, want bool) bool {
-			if in == nil {
-				return false
-			}
-			for _, e := range an.DominatingConds(in.Block()) {
-				if pa, ok := e.If.Cond.(*ssa.Parameter); ok && an.ParamIndex(pa) == 2 && e.Branch == want {
-					return true
-				}
-			}
-			return false
-		}
-		c.Check(onParam(asSlice, true) && onParam(declined, false), "C04-R2", "ecscache.(*Middleware).toCacheKey branches", fn.Pos(),
-			"subnet address and length enter the key exactly for ECS-dependent entries, the opt-out flag otherwise",
-			"the ECS-dependent / independent parts of the key are not selected by the respIsECSDependent argument")
-	}
+	ecsKeyDeps(c, "C04-R2")
 
 	// ---- R3 isCacheable
 	rc := func(n string) int64 { v, _ := c.ConstInt("github.com/miekg/dns", n); return v }
@@ -418,6 +324,11 @@ func runC04(c *an.Ctx) {
 			fmt.Sprintf("the hit path must clone the item (%v), restore its rcode (%v) and recompute AD from this request (%v)", clone, setRcode, setAD))
 	}
 	ecsStoreOrder(c, "C04-R5")
+
+	// ---- R6: cached items are private deep copies: stored as clones, served as clones, and the cloner shares no memory
+	c.Floor("C04-R6", 20)
+	c07Caches(c, "C04-R6")
+	c07Cloner(c, "C04-R6")
 }
 
 // ecsStoreOrder checks that the ECS cache stores the upstream answer after
@@ -458,4 +369,106 @@ func ecsStoreOrder(c *an.Ctx, rule string) {
 	}
 	c.Check(ok && len(after) >= 2, rule, "writeUpstreamResponse store order", set.Pos(),
 		"stored after hop-by-hop clean-up and before the request-specific AD / ECS adjustments", bad)
+}
+
+func keyDeps(c *an.Ctx, rule, fnKey string, sources map[string]func(in ssa.Instruction) ssa.Value) {
+	fn := c.Fn(fnKey)
+	if fn == nil {
+		c.Und(rule, fnKey, token.NoPos, "anchor not found")
+		return
+	}
+	c.Analysed(fnKey)
+	for name, match := range sources {
+		var srcs []ssa.Value
+		an.Instrs(fn, func(in ssa.Instruction) {
+			if v := match(in); v != nil {
+				srcs = append(srcs, v)
+			}
+		})
+		key := fnKey + " depends on " + name
+		if len(srcs) == 0 {
+			c.Bad(rule, key, fn.Pos(), "the cache key never reads %s: entries that differ only in it collide", name)
+			continue
+		}
+		reaches := false
+		for _, s := range srcs {
+			t := forwardTaint(fn, s)
+			for _, r := range an.Returns(fn) {
+				for _, res := range r.Results {
+					if t[res] {
+						reaches = true
+					}
+				}
+			}
+		}
+		c.Check(reaches, rule, key, fn.Pos(), "flows into the key", "is read but does not flow into the key: entries that differ only in "+name+" collide")
+	}
+	if bad := keyPackingProblems(c, fn); len(bad) > 0 {
+		c.Bad(rule, fnKey+" packing", fn.Pos(), "key inputs overlap: %s", strings.Join(bad, "; "))
+	} else {
+		c.Ok(rule, fnKey+" packing", fn.Pos(), "inputs are written to disjoint ranges of sufficient width")
+	}
+}
+
+func fieldLoad(typ, field string) func(in ssa.Instruction) ssa.Value {
+	return func(in ssa.Instruction) ssa.Value {
+		switch x := in.(type) {
+		case *ssa.FieldAddr:
+			if t, f, _, ok := an.FieldOf(x); ok && t == typ && f == field {
+				return x
+			}
+		case *ssa.Field:
+			if t, f, _, ok := an.FieldOf(x); ok && t == typ && f == field {
+				return x
+			}
+		}
+		return nil
+	}
+}
+func callTo(name string) func(in ssa.Instruction) ssa.Value {
+	return func(in ssa.Instruction) ssa.Value {
+		if call, ok := in.(*ssa.Call); ok && an.Short(an.CalleeName(call)) == name {
+			return call
+		}
+		return nil
+	}
+}
+
+// ecsKeyDeps checks the ECS cache key.
+func ecsKeyDeps(c *an.Ctx, rule string) {
+	keyDeps(c, rule, "ecscache.(*Middleware).toCacheKey", map[string]func(ssa.Instruction) ssa.Value{
+		"host": fieldLoad("ecscache.cacheRequest", "host"), "question type": fieldLoad("ecscache.cacheRequest", "qType"),
+		"question class": fieldLoad("ecscache.cacheRequest", "qClass"), "the DO bit": fieldLoad("ecscache.cacheRequest", "reqDO"),
+		"the subnet": fieldLoad("ecscache.cacheRequest", "subnet"), "the ECS opt-out flag": fieldLoad("ecscache.cacheRequest", "isECSDeclined"),
+		"subnet length": callTo("(net/netip.Prefix).Bits"), "address family": callTo("(net/netip.Addr).Is6"),
+	})
+	// in the ECS key the subnet bytes are written exactly on the ECS-dependent branch and the opt-out flag on the other
+	if fn := c.Fn("ecscache.(*Middleware).toCacheKey"); fn != nil {
+		var asSlice, declined ssa.Instruction
+		an.Instrs(fn, func(in ssa.Instruction) {
+			if call, ok := in.(*ssa.Call); ok && an.CalleeName(call) == "(net/netip.Addr).AsSlice" {
+				asSlice = call
+			}
+			if fa, ok := in.(*ssa.FieldAddr); ok {
+				if t, f, _, ok := an.FieldOf(fa); ok && t == "ecscache.cacheRequest" && f == "isECSDeclined" {
+					declined = fa
+				}
+			}
+		})
+		onParam := func(in ssa.Instruction, want bool) bool {
+			if in == nil {
+				return false
+			}
+			for _, e := range an.DominatingConds(in.Block()) {
+				if pa, ok := e.If.Cond.(*ssa.Parameter); ok && an.ParamIndex(pa) == 2 && e.Branch == want {
+					return true
+				}
+			}
+			return false
+		}
+		c.Check(onParam(asSlice, true) && onParam(declined, false), rule, "ecscache.(*Middleware).toCacheKey branches", fn.Pos(),
+			"subnet address and length enter the key exactly for ECS-dependent entries, the opt-out flag otherwise",
+			"the ECS-dependent / independent parts of the key are not selected by the respIsECSDependent argument")
+	}
+
 }
